@@ -1,0 +1,13 @@
+//go:build verif
+
+package entitywrapper
+
+// VerifMsgpNew lists constructors of the unexported types of this package that have msgp
+// generated code, for the serialization check (C08). No logic.
+var VerifMsgpNew = map[string]func() interface{}{
+	"entityVersion": func() interface{} { return new(entityVersion) },
+	"foo": func() interface{} { return new(foo) },
+	"fooBase": func() interface{} { return new(fooBase) },
+	"fooV2": func() interface{} { return new(fooV2) },
+	"fooV3": func() interface{} { return new(fooV3) },
+}
